@@ -118,6 +118,12 @@ type vEnv struct {
 	ownerKey role.Key
 	ownerPol policy.Key
 	closers  []func() error
+	// decoy: a NON-role ontology resource (a group node) that is ParentOf every subject of
+	// every history (and of the root user) and ParentOf a decoy policy granting every
+	// action on every type used by the concretisation maps. The decoy policy is attached
+	// to no role, so by C18 it is not a grant: the expectation of the specification is
+	// unchanged. A walk that treats any parent of the subject as a role picks it up.
+	decoy ontology.ID
 }
 
 func vOpenEnv(ctx context.Context) (*vEnv, error) {
@@ -174,6 +180,26 @@ func vOpenEnv(ctx context.Context) (*vEnv, error) {
 		return nil, fmt.Errorf("built-in Owner policy: %v (%d)", err, len(ops))
 	}
 	e.ownerPol = ops[0].Key
+	e.decoy = ontology.ID{Type: ontology.ResourceTypeGroup, Key: uuid.NewString()}
+	w := e.otg.NewWriter(nil)
+	if err = w.DefineResource(ctx, e.decoy); err != nil {
+		return nil, fmt.Errorf("decoy group: %w", err)
+	}
+	dp := &policy.Policy{Name: "verif-decoy-" + uuid.NewString(), Actions: access.AllActions}
+	for _, m := range vMaps {
+		for _, t := range []string{"T1", "T2", "T3"} {
+			dp.Objects = append(dp.Objects, ontology.ID{Type: ontology.ResourceType(m.t[t])})
+		}
+	}
+	if err = e.svc.Policy.NewWriter(nil, false).Create(ctx, dp); err != nil {
+		return nil, fmt.Errorf("decoy policy: %w", err)
+	}
+	if err = w.DefineRelationship(ctx, e.decoy, ontology.RelationshipTypeParentOf, policy.OntologyID(dp.Key)); err != nil {
+		return nil, fmt.Errorf("decoy -> policy: %w", err)
+	}
+	if err = w.DefineRelationship(ctx, e.decoy, ontology.RelationshipTypeParentOf, e.root); err != nil {
+		return nil, fmt.Errorf("decoy -> root: %w", err)
+	}
 	return e, nil
 }
 
@@ -426,6 +452,10 @@ func vReplay(ctx context.Context, e *vEnv, idx int, hist []vStep, seed int64, fr
 		id := ontology.ID{Type: ontology.ResourceTypeUser, Key: uuid.NewString()}
 		if err := base.DefineResource(ctx, id); err != nil {
 			res.R, res.Note = "inconclusive", "define subject: "+err.Error()
+			return
+		}
+		if err := base.DefineRelationship(ctx, e.decoy, ontology.RelationshipTypeParentOf, id); err != nil {
+			res.R, res.Note = "inconclusive", "decoy -> subject: "+err.Error()
 			return
 		}
 		r.subj[s] = id
